@@ -489,3 +489,139 @@ func (c *astCloner) clone(n ast.Node) ast.Node {
 	}
 	return out
 }
+
+// normalizeFlagGates rewrites, in memory, the statement form of a combinator gate into the combinator form the
+// rules know:
+//
+//	if !X.Has(F) { BODY }   ->   X.IfNotSet(F, func() { BODY })
+//	if X.Has(F) { BODY }    ->   X.IfSet(F, func() { BODY })
+//
+// where Has is a pure membership test of X's type (`_, ok := recv[flag]; return ok`), the type has the combinator
+// with the signature (flag, func()), there is no else branch and no init statement, and BODY does not leave
+// itself (no return, break, continue, goto, defer or label). The package that declares the type is left alone
+// (its combinators may themselves be written over Has). New nodes get their type information from
+// types.CheckExpr; BODY keeps the information it has.
+func normalizeFlagGates(pk *packages.Package, decls map[types.Object]*ast.FuncDecl) int {
+	info := pk.TypesInfo
+	isMembership := func(m *types.Func) bool {
+		d := decls[m]
+		if d == nil || d.Body == nil || d.Recv == nil || len(d.Recv.List) != 1 || len(d.Recv.List[0].Names) != 1 || len(d.Body.List) != 2 {
+			return false
+		}
+		sig := m.Type().(*types.Signature)
+		if sig.Params().Len() != 1 || sig.Results().Len() != 1 {
+			return false
+		}
+		as, ok := d.Body.List[0].(*ast.AssignStmt)
+		if !ok || as.Tok != token.DEFINE || len(as.Lhs) != 2 || len(as.Rhs) != 1 {
+			return false
+		}
+		if id, ok := as.Lhs[0].(*ast.Ident); !ok || id.Name != "_" {
+			return false
+		}
+		okID, ok := as.Lhs[1].(*ast.Ident)
+		if !ok {
+			return false
+		}
+		ix, ok := ast.Unparen(as.Rhs[0]).(*ast.IndexExpr)
+		if !ok {
+			return false
+		}
+		rx, ok1 := ast.Unparen(ix.X).(*ast.Ident)
+		px, ok2 := ast.Unparen(ix.Index).(*ast.Ident)
+		if !ok1 || !ok2 || rx.Name != d.Recv.List[0].Names[0].Name {
+			return false
+		}
+		if d.Type.Params == nil || len(d.Type.Params.List) != 1 || len(d.Type.Params.List[0].Names) != 1 || px.Name != d.Type.Params.List[0].Names[0].Name {
+			return false
+		}
+		rs, ok := d.Body.List[1].(*ast.ReturnStmt)
+		if !ok || len(rs.Results) != 1 {
+			return false
+		}
+		rid, ok := ast.Unparen(rs.Results[0]).(*ast.Ident)
+		return ok && rid.Name == okID.Name
+	}
+	staysInside := func(body *ast.BlockStmt) bool {
+		ok := true
+		ast.Inspect(body, func(n ast.Node) bool {
+			switch n.(type) {
+			case *ast.FuncLit:
+				return false
+			case *ast.ReturnStmt, *ast.BranchStmt, *ast.DeferStmt, *ast.LabeledStmt:
+				ok = false
+			}
+			return ok
+		})
+		return ok
+	}
+	n := 0
+	rewrite := func(list []ast.Stmt) {
+		for i, st := range list {
+			ifs, ok := st.(*ast.IfStmt)
+			if !ok || ifs.Init != nil || ifs.Else != nil {
+				continue
+			}
+			cond := ast.Unparen(ifs.Cond)
+			comb := "IfSet"
+			if u, isNot := cond.(*ast.UnaryExpr); isNot && u.Op == token.NOT {
+				cond = ast.Unparen(u.X)
+				comb = "IfNotSet"
+			}
+			call, ok := cond.(*ast.CallExpr)
+			if !ok || len(call.Args) != 1 {
+				continue
+			}
+			se, ok := ast.Unparen(call.Fun).(*ast.SelectorExpr)
+			if !ok {
+				continue
+			}
+			m, ok := info.Uses[se.Sel].(*types.Func)
+			if !ok || m.Pkg() == nil || m.Pkg() == pk.Types || !isMembership(m) {
+				continue
+			}
+			recvT := m.Type().(*types.Signature).Recv().Type()
+			cobj, _, _ := types.LookupFieldOrMethod(recvT, true, m.Pkg(), comb)
+			cf, ok := cobj.(*types.Func)
+			if !ok || !cf.Exported() {
+				continue
+			}
+			csig := cf.Type().(*types.Signature)
+			if csig.Params().Len() != 2 || csig.Results().Len() != 0 || !types.Identical(csig.Params().At(0).Type(), m.Type().(*types.Signature).Params().At(0).Type()) {
+				continue
+			}
+			if fs, isSig := csig.Params().At(1).Type().Underlying().(*types.Signature); !isSig || fs.Params().Len() != 0 || fs.Results().Len() != 0 {
+				continue
+			}
+			if !staysInside(ifs.Body) {
+				continue
+			}
+			lit := &ast.FuncLit{Type: &ast.FuncType{Func: ifs.Body.Lbrace, Params: &ast.FieldList{Opening: ifs.Body.Lbrace, Closing: ifs.Body.Lbrace}}, Body: ifs.Body}
+			nc := &ast.CallExpr{
+				Fun:    &ast.SelectorExpr{X: se.X, Sel: &ast.Ident{NamePos: se.Sel.NamePos, Name: comb}},
+				Lparen: call.Lparen,
+				Args:   []ast.Expr{call.Args[0], lit},
+				Rparen: ifs.Body.Rbrace,
+			}
+			if err := types.CheckExpr(pk.Fset, pk.Types, ifs.Pos(), nc, info); err != nil {
+				continue
+			}
+			list[i] = &ast.ExprStmt{X: nc}
+			n++
+		}
+	}
+	for _, f := range pk.Syntax {
+		ast.Inspect(f, func(nd ast.Node) bool {
+			switch v := nd.(type) {
+			case *ast.BlockStmt:
+				rewrite(v.List)
+			case *ast.CaseClause:
+				rewrite(v.Body)
+			case *ast.CommClause:
+				rewrite(v.Body)
+			}
+			return true
+		})
+	}
+	return n
+}
